@@ -36,9 +36,9 @@ RULE = ('every ordered pair of the value alphabet (quick 32, thorough 50 '
         'transitivity_triples); a case is non-trivial when the reference '
         'judges it and the two operands are different alphabet entries')
 BOUNDS = {
-    'quick': {'alphabet': 49, 'routes': 6, 'operators': 6,
+    'quick': {'alphabet': 52, 'routes': 6, 'operators': 6,
               'triples_per_full_route': 41 ** 3},
-    'thorough': {'alphabet': 65, 'routes': 10, 'operators': 6,
+    'thorough': {'alphabet': 68, 'routes': 10, 'operators': 6,
                  'triples_per_full_route': 58 ** 3},
 }
 ASSUMPTIONS = [
@@ -94,6 +94,10 @@ QUICK = [
     _text('-1'), _text('a-b'),
     # ... and so are the characters that are wild cards in criteria
     _text('abc'), _text('a*'), _text('a?c'),
+    # long texts that differ (or end) only beyond their 255th character
+    dict(_text('x' * 255), id='t:x255'),
+    dict(_text('x' * 255 + 'a'), id='t:x255a'),
+    dict(_text('X' * 255 + 'b'), id='t:X255b'),
     # the first two months of 1900 (serial = days since 1899-12-31)
     _date(1900, 2, 28), _num('i59', 'int', 59), _num('i60', 'int', 60),
     {'id': 'b:FALSE', 'cls': 'bool', 'carrier': 'bool', 'v': False},
@@ -186,7 +190,7 @@ def fn_spelling(v):
         return 'ROUND(%s,9)' % lit
     if v['cls'] == 'bool':
         return 'ISNUMBER(1)' if v['v'] else 'ISTEXT(1)'
-    return 'LEFT(%s,99)' % lit
+    return 'LEFT(%s,%d)' % (lit, len(v['v']) + 9)
 
 
 def spelling(route, v):
@@ -420,11 +424,42 @@ def run_route(route, tier, ctx):
                 'example': point_key(route, 'lt', left[0], right[-2])})
 
 
+def run_cells_seq(tier, op, ctx):
+    """Route 'cells-seq': one model and one evaluator per left operand; the
+    right operand cell takes every value in turn, neighbours in the sequence
+    being values that Python finds equal (1, TRUE, 1.0 ...)."""
+    def pykey(v):
+        n = native(v)
+        try:
+            return (0, float(n), v['cls'], v['id'])
+        except (TypeError, ValueError):
+            return (1, 0.0, v['cls'], v['id'])
+    alph = [v for v in ALPHABET[tier] if v['cls'] != 'blank']
+    seq = sorted(alph, key=pykey)
+    for a in alph:
+        try:
+            model = lib.compile_dict({AT: '=A1%sB1' % ref.SYMBOL[op]})
+            ev = lib.Evaluator(model)
+            ev.set_cell_value(CELL_A, native(a))
+        except Exception:  # noqa: BLE001
+            continue
+        for k, b in enumerate(seq + seq[::-1]):
+            setter = ev.set_cell_value if k % 2 else model.set_cell_value
+            lib.observe(setter, CELL_B, native(b))
+            obs = lib.observe(ev.evaluate, AT)
+            judge_point('cells-seq', op, a, b, obs, ctx)
+        lib.clear_caches()
+
+
 def plan(tier):
-    return [{'route': r, 'tier': tier} for r in ROUTES[tier]]
+    return [{'route': r, 'tier': tier} for r in ROUTES[tier]] + [
+        {'route': 'cells-seq', 'tier': tier, 'op': op} for op in ref.OPS]
 
 
 def run_shard(shard, ctx):
+    if shard['route'] == 'cells-seq':
+        run_cells_seq(shard['tier'], shard['op'], ctx)
+        return
     run_route(shard['route'], shard['tier'], ctx)
 
 
@@ -457,7 +492,7 @@ def replay(inputs, ctx):
 
 def selftest():
     ref.selftest()
-    assert len(QUICK) == 49 and len(ALPHABET['thorough']) == 65
+    assert len(QUICK) == 52 and len(ALPHABET['thorough']) == 68
     ids = [v['id'] for v in ALPHABET['thorough']]
     assert len(ids) == len(set(ids))
     texts = [v['v'] for v in ALPHABET['thorough'] if v['cls'] == 'text']
@@ -486,7 +521,7 @@ TECHNIQUE = ('bounded-exhaustive enumeration of ordered pairs of a value '
              'library, against a reference rank, plus the order laws '
              '(trichotomy, consistency, converse, transitivity over all '
              'triples) evaluated on the observed relation')
-LEVEL_TEXT = ('All ordered pairs of 49 (thorough: 65) representative values '
+LEVEL_TEXT = ('All ordered pairs of 52 (thorough: 68) representative values '
               '- ints, floats, equal int/float pairs, dates with serials '
               'between the numbers, empty / numeric-looking / boolean-looking '
               '/ mixed-case / prefix texts, a non-ASCII text, both logicals '
